@@ -17,7 +17,7 @@
     previous one returned; [chain_g]: its relational counterpart; [spell_text]: the whole closure. *)
 From TU Require Import RNG_Model RNG_Proofs.
 From TU Require Import Base UCD_Model UAX29_Model C15_Model C15_Proofs C15_Seeded C15_SeededFloat C15_SeededProofs.
-From TU Require Import C15_Seam C15_Classes C15_Tables C15_TablesProofs C15_TablesFloat C15_Spell C15_SpellProofs.
+From TU Require Import C15_Seam C15_Classes C15_Tables C15_TablesProofs C15_TablesFloat C15_Spell C15_SpellProofs C15_SpellTotal.
 From Coq Require Import Lia Permutation.
 Close Scope N_scope.
 Open Scope nat_scope.
@@ -262,6 +262,30 @@ Theorem notables_call : forall fd w ex st k st', wf st ->
 Proof. exact notables_call_fixed. Qed.
 Print Assumptions notables_call.
 
+(** spell_text_total: inside the decidable domain [dom_ok] (a positive probability; with a character
+    dictionary: every key that passes the filter is a 3-gram and the powf results are sane; no word has an
+    empty list of misspellings; sizes below the machine limits) the closure returns a text for EVERY seed and
+    every value of the two other probabilities: no assertion, no "invalid weights", no empty range *)
+Theorem spell_text_total : forall mode fd prob pc art items m seed text,
+  dom_ok mode fd prob items m text = true ->
+  exists t, spell_text mode fd prob pc art items m seed text = SpText t.
+Proof. exact spell_text_total_l. Qed.
+Print Assumptions spell_text_total.
+
+(** chain_text_total: a chain of n calls never faults and the text grows by at most B code points per call
+    (B = the longest edit string of the tables) *)
+Theorem chain_text_total : forall wc B n, wtabs_ok wc = true -> strs_le (erase wc) B ->
+  forall x ex st, wf st -> (N.of_nat (S (length x + n * B)) < p64)%N ->
+  exists x' ex' st', chain_text wc n x ex st = Some (x', ex', st') /\ wf st' /\ length x' <= length x + n * B.
+Proof. exact C15_SpellTotal.chain_text_total. Qed.
+Print Assumptions chain_text_total.
+
+(** check_run4: the executable statement of the fourth stream (the two runs agree; inside [dom4] no panic)
+    holds of the model's own output, for every input *)
+Theorem check_run4 : forall v, check_spell4 v (L [seeded_spell4 v; seeded_spell4 v]) = true.
+Proof. exact check_run4_l. Qed.
+Print Assumptions check_run4.
+
 (** * Non-vacuity and known answers *)
 Open Scope N_scope.
 Definition s_ (l : list N) : str := l.
@@ -319,3 +343,24 @@ Example tables_panic_witness :
   build_tables [(s_ [97; 32; 98], 1%N, f_one); (s_ ([97; 32; 98; 32] ++ eow_), 20000%N, f_one)]
   = TOk [(s_ [97], s_ eow_, [(s_ [98], f_one)])] [].
 Proof. vm_compute. repeat split. Qed.
+
+(** known answers (the real crate through `c15 run`; input and implementation output as the harness prints
+    them): the exact line of the fourth stream accepts them, they lie in the domain, the statement holds.
+    1. artificial mode with a dictionary: text "0c-" + IDEOGRAPHIC SPACE, seed 588579954 -> "0c" ('-' deleted) *)
+Definition ka4_in_1 : val := L [I 4; I 0; I 1; I 588579954; L [I 48; I 99; I 45; I 32; I 12288]; L [L [L [I 99; I 32; I 46; I 32; I 45]; I 4; L [I 0; I 7149018786131516; I (-52)]]; L [L [I 60; I 98; I 111; I 119; I 62; I 32; I 48; I 32; I 99]; I 3; L [I 0; I 6495314627411702; I (-52)]]; L [L [I 101; I 769; I 32; I 191; I 32; I 233]; I 1; L [I 0; I 4503599627370496; I (-52)]]; L [L [I 60; I 98; I 111; I 119; I 62; I 32; I 233; I 32; I 99]; I 3; L [I 0; I 6495314627411702; I (-52)]]; L [L [I 45; I 32; I 837; I 32; I 97]; I 4; L [I 0; I 7149018786131516; I (-52)]]]; L []; L [L [I 0; I 4503599627370496; I (-52)]; L [I 0; I 7995648556387507; I (-59)]; L [I 0; I 5629499534213120; I (-51)]; L [I 0; I 6755399441055744; I (-51)]]; L [L [L [I 48; I 99; I 45]; L []; L [L [L [I 48]; I 0; I 0]; L [L [I 99]; I 1; I 0]; L [L [I 45]; I 0; I 1]]]]].
+Definition ka4_out_1 : val := L [L [L [I 48; I 99]]; L [L [I 48; I 99]]].
+(** 2. mixed mode: text "b\u{e9} \u{3a3}", the second word has the misspellings ["e\u{301}a", "\u{201e}"] -> "b\u{e9} \u{201e}" *)
+Definition ka4_in_2 : val := L [I 4; I 2; I 1; I 752196295; L [I 98; I 233; I 32; I 931]; L [L [L [I 60; I 98; I 111; I 119; I 62; I 32; I 128512; I 32; I 60; I 101; I 111; I 119; I 62]; I 4; L [I 0; I 4503599627370496; I (-50)]]; L [L [I 2325; I 32; I 101; I 769; I 46; I 32; I 99]; I 1; L [I 0; I 4503599627370496; I (-52)]]; L [L [I 99; I 32; I 931; I 32; I 60; I 101; I 111; I 119; I 62]; I 3; L [I 0; I 6755399441055744; I (-51)]]; L [L [I 60; I 98; I 111; I 119; I 62; I 32; I 8222; I 32; I 931]; I 3; L [I 0; I 6755399441055744; I (-51)]]; L [L [I 60; I 98; I 111; I 119; I 62; I 32; I 9786; I 160; I 2325]; I 3; L [I 0; I 6755399441055744; I (-51)]]; L [L [I 110; I 771; I 32; I 36; I 32; I 42958]; I 5; L [I 0; I 5629499534213120; I (-50)]]; L [L [I 60; I 98; I 111; I 119; I 62; I 32; I 8222; I 32; I 9786]; I 3; L [I 0; I 6755399441055744; I (-51)]]; L [L [I 223; I 32; I 189; I 32; I 127465]; I 3; L [I 0; I 6755399441055744; I (-51)]]]; L [L [L [I 98; I 233]; L [L [I 101; I 769; I 8217]; L [I 101; I 769]; L [I 46]]]; L [L [I 931]; L [L [I 101; I 769; I 97]; L [I 8222]]]; L [L [I 837]; L [L [I 45; I 931; I 99]; L [I 48; I 8217; I 178]; L [I 48]]]]; L [L [I 0; I 8106479329266893; I (-53)]; L [I 0; I 8106479329266893; I (-53)]; L [I 0; I 6528281570443264; I (-54)]; L [I 0; I 4503599627370496; I (-52)]]; L [L [L [I 98; I 233]; L [L [I 0; L [I 98; I 233]]]; L [L [L [I 98]; I 1; I 0]; L [L [I 233]; I 1; I 0]]]; L [L [I 931]; L [L [I 0; L [I 931]]]; L [L [L [I 931]; I 1; I 0]]]]].
+Definition ka4_out_2 : val := L [L [L [I 98; I 233; I 32; I 8222]]; L [L [I 98; I 233; I 32; I 8222]]].
+(** 3. artificial mode without a dictionary: "-7a \u{bd}\u{915}\u{201e}" -> the letter KA deleted from the second word *)
+Definition ka4_in_3 : val := L [I 4; I 3; I 0; I 928895310; L [I 45; I 55; I 97; I 32; I 189; I 2325; I 8222]; L []; L []; L [L [I 0; I 8106479329266893; I (-53)]; L [I 0; I 0; I (-1074)]; L [I 0; I 7177491647037440; I (-54)]; L [I 0; I 4503599627370496; I (-51)]]; L [L [L [I 45; I 55; I 97]; L []; L [L [L [I 45]; I 0; I 1]; L [L [I 55]; I 0; I 0]; L [L [I 97]; I 1; I 0]]]; L [L [I 189; I 2325; I 8222]; L [L [I 2; L [I 2325]]]; L [L [L [I 189]; I 0; I 0]; L [L [I 2325]; I 1; I 0]; L [L [I 8222]; I 0; I 1]]]]].
+Definition ka4_out_3 : val := L [L [L [I 45; I 55; I 97; I 32; I 189; I 8222]]; L [L [I 45; I 55; I 97; I 32; I 189; I 8222]]].
+Example exact4_witness :
+  Forall (fun io : val * val => exact_spell4 (fst io) (seeded_spell4 (fst io)) (snd io) = true /\
+                                dom4 (fst io) = true /\ check_spell4 (fst io) (snd io) = true)
+         [(ka4_in_1, ka4_out_1); (ka4_in_2, ka4_out_2); (ka4_in_3, ka4_out_3)].
+Proof. repeat constructor; vm_compute; reflexivity. Qed.
+
+(** a different text is rejected *)
+Example exact4_rejects : exact_spell4 ka4_in_1 (seeded_spell4 ka4_in_1) (L [L [L [I 48; I 45]]; L [L [I 48; I 45]]]) = false.
+Proof. vm_compute. reflexivity. Qed.
